@@ -225,7 +225,8 @@ class ModeDriver(MachineDriver):
         return (tuple(sorted(self.last.items())), tuple(sorted(self.armed.items())), tuple(sorted(self.hold)),
                 tuple(sorted(self.waits)), tuple(sorted(self.pending_start.items())), tuple(sorted(self.pending_stop.items())),
                 self.modes_fp(), repr(sorted(self.registry().items())), self.rel_timers(), self.task_fp(),
-                m.counters["m1_counter"].value,
+                m.counters["m1_counter"].value, m.counters["m1_counter"].enabled,
+                simple_state(m.timers["m1_timer"], exclude=("timer", "delay", "event_keys"), now=self.loop.time()),
                 tuple(simple_state(m.modes[n], exclude=("event_handlers", "mode_devices", "stop_methods", "start_event_kwargs",
                                                         "asset_paths", "path", "switch_handlers", "stop_callbacks")) for n in MODES))
 
